@@ -20,6 +20,27 @@ Next ==
 Spec == Init /\ [][Next]_vars
 
 View == <<cur, w, u, failing, g, closed, nextId>>
+
+\* UpdaterInd is the typed twin (ids and the close log left out) whose invariant Apalache proves inductive, for any
+\* number of installs; here TLC checks on the bounded instance that Updater refines it and that the inductive
+\* invariant holds in every reachable state.
+UI == INSTANCE UpdaterInd WITH
+        Names <- NameSet, Upds <- UpdSet, Getters <- GetterSet,
+        wname <- [x \in UpdSet |-> IF w[x] = Nil THEN "" ELSE w[x].name],
+        ready <- [x \in UpdSet |-> IF w[x] = Nil THEN FALSE ELSE w[x].ready],
+        upc <- [x \in UpdSet |-> IF u[x] = Nil THEN "none" ELSE u[x].pc],
+        uread <- [x \in UpdSet |-> IF u[x] = Nil THEN 0 ELSE u[x].read],
+        ufrom <- [x \in UpdSet |-> IF u[x] = Nil THEN 0 ELSE IF u[x].val = Nil THEN 0 ELSE u[x].val.from],
+        uerr <- [x \in UpdSet |-> IF u[x] = Nil THEN FALSE ELSE u[x].err],
+        holder <- [x \in UpdSet |-> IF u[x] = Nil THEN "" ELSE IF u[x].holder = Nil THEN "" ELSE u[x].holder],
+        gupd <- [t \in GetterSet |-> IF g[t] = Nil THEN "" ELSE g[t].upd],
+        gstage <- [t \in GetterSet |-> IF g[t] = Nil THEN "idle" ELSE g[t].stage],
+        gread <- [t \in GetterSet |-> IF g[t] = Nil THEN 0 ELSE g[t].read],
+        gseen <- [t \in GetterSet |-> IF g[t] = Nil THEN 0 ELSE g[t].seen],
+        gretfrom <- [t \in GetterSet |-> IF g[t] = Nil THEN 0 ELSE IF g[t].ret = Nil THEN 0 ELSE g[t].ret.val.from],
+        greterr <- [t \in GetterSet |-> IF g[t] = Nil THEN FALSE ELSE IF g[t].ret = Nil THEN FALSE ELSE g[t].ret.err]
+IndInvHolds == UI!IndInv
+RefinesInd == [][UI!Next \/ UNCHANGED UI!vars]_vars
 WakeNotLost == U!WakeNotLost
 ReturnFresh == U!ReturnFresh
 NoSpuriousBuild == U!NoSpuriousBuild
